@@ -673,7 +673,10 @@ def phrase_verdict(case, tool_files, drv, vp, mp, pfx):
             return "file %r: %s" % (name, d), "tool"
     # exact: the model of BuildGraph's graph (no hashing, no lazy search) predicts the files byte for byte
     graph = drv.files(pfx, "graph", nout)
+    search = drv.files(pfx, "search", nout)
     for k, name in enumerate(names):
         if graph.get(k) != tool_files[name]:
             return "file %r differs from the search-graph model (%d vs %d bytes)" % (name, len(tool_files[name]), len(graph.get(k, b""))), "graph"
+        if search.get(k) != tool_files[name]:
+            return "file %r differs from the model of the lazy search (%d vs %d bytes)" % (name, len(tool_files[name]), len(search.get(k, b""))), "search"
     return None, None
